@@ -459,6 +459,58 @@ pub fn run(ctx: &mut Ctx) -> Report {
 		}
 		rep.exhaustive.push("string types: TryFrom<&str> / TryFrom<String> / FromStr agree on acceptance, stored bytes and error; as_str / AsRef / Display / == (4 forms) return the text; from_utf16be / from_utf32be invert as_bytes".into());
 	}
+	// a name read back from a certificate: every string kind, with text whose stored octets are and
+	// are not valid UTF-8 (é in UCS-2 is 00 E9; U+9280 is 92 80), comes back as the value it was
+	#[cfg(not(feature = "nocrypto"))]
+	{
+		use rcgen::{CertificateParams, DistinguishedName, DnType, DnValue, IsCa, BasicConstraints};
+		let texts = ["plain", "\u{e9}t\u{e9}", "\u{9280}\u{884c}", "A\u{80}\u{ff}", "\u{20ac}uro", "\u{1f980}"];
+		let key = &ctx.ed_key;
+		for t in texts {
+			let mut vals: Vec<(&str, DnValue)> = vec![("utf8", DnValue::Utf8String(t.to_string()))];
+			if let Ok(b) = BmpString::try_from(t) {
+				vals.push(("bmp", DnValue::BmpString(b)));
+			}
+			if let Ok(u) = UniversalString::try_from(t) {
+				vals.push(("universal", DnValue::UniversalString(u)));
+			}
+			if let Ok(x) = TeletexString::try_from(t) {
+				vals.push(("teletex", DnValue::TeletexString(x)));
+			}
+			if let Ok(x) = PrintableString::try_from(t) {
+				vals.push(("printable", DnValue::PrintableString(x)));
+			}
+			if let Ok(x) = Ia5String::try_from(t) {
+				vals.push(("ia5", DnValue::Ia5String(x)));
+			}
+			for (kind, v) in vals {
+				let mut p = CertificateParams::default();
+				p.is_ca = IsCa::Ca(BasicConstraints::Unconstrained);
+				p.distinguished_name = DistinguishedName::new();
+				p.distinguished_name.push(DnType::OrganizationName, v.clone());
+				let Ok(cert) = p.clone().self_signed(key) else { continue };
+				rep.evaluations += 1;
+				rep.count(&format!("name_value_read_back:{}", kind));
+				match std::panic::catch_unwind(|| CertificateParams::from_ca_cert_der(cert.der())) {
+					Ok(Ok(ip)) if ip.distinguished_name == p.distinguished_name => {},
+					other => rep.violate(&format!("C13:read-back:{}", kind), "a name value written into a certificate does not come back from it as the value it was", format!("kind={} text={:?} stored octets of the value are {}valid UTF-8\ncertificate: {}\nimport: {}", kind, t, if matches!(kind, "bmp" | "universal") { "not necessarily " } else { "" }, hex(cert.der()), match other { Ok(Ok(_)) => "another value".to_string(), Ok(Err(e)) => format!("refused: {:?}", e), Err(_) => "panicked".to_string() })),
+				}
+				// the value of a type replaced after the name has been written once: what is written
+				// next is the new value under its own tag
+				let mut q = p.clone();
+				q.distinguished_name.push(DnType::OrganizationName, DnValue::Utf8String("first".into()));
+				let _ = q.clone().self_signed(key);
+				q.distinguished_name.push(DnType::OrganizationName, v.clone());
+				let again = q.clone().self_signed(key).ok().and_then(|c| crate::der::split_signed(c.der()).map(|x| x.0));
+				let fresh = crate::der::split_signed(cert.der()).map(|x| x.0);
+				let subject = |tbs: &Option<Vec<u8>>| tbs.as_ref().and_then(|t| { let (o, _) = crate::der::read_tlv(t)?; Some(crate::der::children(o.content)?[5].whole.to_vec()) });
+				if subject(&again) != subject(&fresh) {
+					rep.violate(&format!("C13:value-replaced-after-writing:{}", kind), "a value pushed in place of another after the name was written once is not what the next certificate carries", format!("kind={} text={:?}\nsubject written: {:?}\nsubject of a name built with the value directly: {:?}", kind, t, subject(&again).map(|b| hex(&b)), subject(&fresh).map(|b| hex(&b))));
+				}
+			}
+		}
+		rep.exhaustive.push("6 texts x every string kind that takes them: written into a certificate and read back by from_ca_cert_der; and pushed in place of another value after the name had been written once".into());
+	}
 	// the command-line tool hands its --country-name to the PrintableString type: whatever text
 	// it is given, the country attribute of the CA it writes is a PrintableString holding that
 	// text, or nothing is written
@@ -494,7 +546,29 @@ pub fn run(ctx: &mut Ctx) -> Report {
 					rep.violate("C13:cli-country", "the command-line tool's country name is not a PrintableString holding the given text, or a text outside the alphabet was not refused", format!("--country-name={:?}\nexit success={}\ncountry attribute written (tag, content): {:?}", t, out.status.success(), attr.map(|(t, c)| (t, hex(&c)))));
 				}
 			}
-			rep.exhaustive.push("the command-line tool's --country-name over every ASCII character and 16 other texts: PrintableString holding the text, or refused".into());
+			// ... and each --san value that is not an IP literal is one dNSName holding that text
+			for t in ["a,b.example", "10.0.0.1,10.0.0.2", "trailing.example,", "UPPER.example", "semi;colon.example", "x y.example", "a=b.example"] {
+				let dir = format!("/verif/.cache/c13_cli_san_{}", std::process::id());
+				let _ = std::fs::remove_dir_all(&dir);
+				let out = std::process::Command::new(&cli).args(["-o", &dir, &format!("--san={}", t)]).env("RUST_BACKTRACE", "0").output();
+				let Ok(out) = out else { continue };
+				rep.evaluations += 1;
+				let der = std::fs::read_to_string(format!("{}/cert.pem", dir)).ok().and_then(|p| pem::parse(p).ok()).map(|p| p.contents().to_vec());
+				let _ = std::fs::remove_dir_all(&dir);
+				if !out.status.success() {
+					rep.violate("C13:cli-san", "the command-line tool refuses an ASCII name", format!("--san={:?} exit {:?}", t, out.status.code()));
+					continue;
+				}
+				let Some(der) = der else { continue };
+				// the subjectAltName extension value: exactly one [2] element holding the text
+				let want: Vec<u8> = { let mut g = vec![0x82, t.len() as u8]; g.extend_from_slice(t.as_bytes()); let mut v = vec![0x30, g.len() as u8]; v.extend(g); v };
+				let pos = der.windows(5).position(|w| w == [0x06, 0x03, 0x55, 0x1d, 0x11]);
+				let found = pos.map(|i| der[i..].windows(want.len()).any(|w| w == &want[..])).unwrap_or(false);
+				if !found {
+					rep.violate("C13:cli-san", "a --san value that is not an IP literal is not written as one dNSName holding that text", format!("--san={:?}\nexpected GeneralNames {}\ncertificate: {}", t, hex(&want), hex(&der)));
+				}
+			}
+			rep.exhaustive.push("the command-line tool's --country-name over every ASCII character and 16 other texts: PrintableString holding the text, or refused; 7 --san texts with separators in them: one dNSName each".into());
 		}
 	}
 	rep.add("driver_requests", drv.requests);
